@@ -76,6 +76,24 @@ def main(budget):
                     if not same(a, g):
                         return dict(violation=True, cases=cases, what="round trip changed the array (%s): %r -> %r" % (name, (a.dtype, a.shape, a.flags.f_contiguous), (g.dtype, g.shape, g.flags.f_contiguous)),
                                     witness=dict(dtype=str(a.dtype), shape=a.shape, compress=repr(comp)))
+                    # ... and with the default conversion: only an array whose dtype is ENTIRELY of the foreign byte order may be
+                    # converted (K7), and then its values are preserved; native and mixed-endian structured arrays stay bit-exact
+                    gd = joblib.load(path)
+                    gd = gd if name == "alone" else gd["k"][0]
+                    foreign = ">" if sys.byteorder == "little" else "<"
+                    if a.dtype.fields:
+                        orders = {f[0].byteorder for f in a.dtype.fields.values()}
+                        wholly_foreign = orders == {foreign}
+                    else:
+                        wholly_foreign = a.dtype.byteorder == foreign
+                    if not wholly_foreign:
+                        if not same(a, gd):
+                            return dict(violation=True, cases=cases, what="default load changed an array that is not of foreign byte order (%s): dtype %s -> %s, equal values: %r"
+                                        % (name, a.dtype, gd.dtype, bool(np.array_equal(a, gd)) if not a.dtype.hasobject else None),
+                                        witness=dict(dtype=str(a.dtype), shape=a.shape, compress=repr(comp)))
+                    elif gd.shape != a.shape or not np.array_equal(a, gd):
+                        return dict(violation=True, cases=cases, what="default load of a foreign-endian array changed its values (%s)" % name,
+                                    witness=dict(dtype=str(a.dtype), shape=a.shape, compress=repr(comp)))
                     if name == "nested" and not same(a, got["k"][2][0]):
                         return dict(violation=True, cases=cases, what="second occurrence in the container differs", witness=dict(dtype=str(a.dtype), shape=a.shape))
             if not a.dtype.hasobject:
